@@ -88,6 +88,9 @@ type Prelude struct {
 	ReVia  string `json:"re_via,omitempty"`
 	// ReMode: the earlier run used the OTHER error-handling mode; afterwards the node is re-configured to the case's mode
 	ReMode bool `json:"re_mode,omitempty"`
+	// Cancelled: the earlier run's context is cancelled from inside the exec of its item 0 (attempt 1) — with more items
+	// than workers, so that queued items are picked up after the cancellation
+	Cancelled bool `json:"cancelled,omitempty"`
 }
 
 type bItem struct {
@@ -855,13 +858,19 @@ func runBatchCase(cs *BatchCase) *BatchObs {
 		pcs := *cs
 		pcs.N, pcs.Items, pcs.PostFail = cs.Prelude.N, cs.Prelude.Items, cs.Prelude.PostFail
 		pcs.Gated, pcs.Cancel, pcs.DwellMs, pcs.Prelude, pcs.Lean, pcs.SleepUs, pcs.WaitMs, pcs.WaitHour = false, nil, 0, nil, false, 0, 0, false
+		pctx, pcancel := context.WithCancel(context.Background())
+		if cs.Prelude.Cancelled {
+			pcs.Cancel = &CancelSpec{Kind: "cancel", Item: 0, Attempt: 1}
+			pcs.SleepUs = 200 // the other workers are busy for a moment while the cancellation happens
+		}
 		b.cs = &pcs
 		b.reset()
+		b.cancel = pcancel
 		pdone := make(chan struct{})
 		go func() {
 			defer close(pdone)
 			defer func() { recover() }()
-			_, _ = flyt.Run(context.Background(), node, flyt.NewSharedStore())
+			_, _ = flyt.Run(pctx, node, flyt.NewSharedStore())
 		}()
 		select {
 		case <-pdone:
@@ -891,6 +900,8 @@ func runBatchCase(cs *BatchCase) *BatchObs {
 				}
 			}
 		}
+		pcancel()
+		b.cancel = nil
 		b.cs = cs
 		b.reset()
 		b.keptNonce = keptNonce
